@@ -35,10 +35,17 @@ def qlit(x):
 
 
 def fp_net(net):
+    """parameters, buffers (BatchNorm running statistics) and the training flag of every module"""
     h = hashlib.sha256()
-    for p in net.parameters():
-        h.update(p.detach().cpu().numpy().tobytes())
+    for k, v in net.state_dict().items():
+        h.update(k.encode())
+        h.update(v.detach().cpu().numpy().tobytes())
+    h.update(bytes(int(m.training) for m in net.modules()))
     return h.hexdigest()
+
+
+def modes(nets):
+    return None if nets is None else [[bool(m.training) for m in n.modules()] for n in nets]
 
 
 def fp_opt(opt):
@@ -118,6 +125,7 @@ def abstract(solver, ids, slots):
         'loss': loss_id(ids, solver.loss_fn),
         'global_epoch': solver.global_epoch,
         'draws': gen_counts(solver),
+        'stochastic': any(type(m).__name__.startswith('Dropout') and m.training for n in solver.nets for m in n.modules()),
     }
     if kind == 'BundleSolver1D':
         off = len(solver.conditions) + 1
@@ -187,7 +195,7 @@ def coq_state(a, n_params, eqs):
     layers = '[' + '; '.join('[' + '; '.join(str(i) for i in l) + ']' for l in eqs) + ']'
     return (f'(mkState {KIND[a["kind"]]} {coq_zl(a["nets"])} {a["opt"]}%Z {coq_ql(a["train"])} {coq_ql(a["valid"])} '
             f'{coq_opt(a["lowest"], qlit)} {coq_opt(a["best"], coq_zl)} {coq_conds(a["conds"])} {a["loss"]} {n_params} {layers} '
-            f'(mkEnv {a["draws"][0]} {a["draws"][1]} 0 0 0))')
+            f'(mkEnv {a["draws"][0]} {a["draws"][1]} 0 0 0 {"true" if a.get("stochastic") else "false"}))')
 
 
 def coq_obs(a, next_fit_ok, rng=(0, 0)):
@@ -267,7 +275,7 @@ def build_solver(torch, spec):
     kind, ck = spec['kind'], spec['cond']
     loss = PF.scaled_loss if spec['custom_loss'] else None
     n_in = {'1d': 1, '2d': 2, 'bundle': 2}[kind]
-    net = FCNN(n_in, 1, hidden_units=(3,))
+    net = FCNN(n_in, 1, hidden_units=(3,)) if spec.get('net', 'plain') == 'plain' else PF.ModeNet(n_in, spec['net'])
     lr = spec.get('lr', 0.01)
     opt = torch.optim.SGD(net.parameters(), lr=lr) if spec['opt'] == 'sgd' else torch.optim.Adam(net.parameters(), lr=lr)
     nums = spec['numbers']
@@ -312,7 +320,8 @@ def solutions(torch, solver, spec):
             out[name] = None
             continue
         try:
-            with torch.no_grad():
+            with torch.random.fork_rng(), torch.no_grad():
+                torch.manual_seed(12345)            # Dropout in training mode: same mask before and after
                 u = solver.get_solution(copy=True, best=best)(*grid(torch, spec))
             out[name] = [float(v) for v in u.reshape(-1)]
         except Exception as e:
@@ -328,6 +337,7 @@ def snapshot(solver):
         'nets': [fp_net(n) for n in solver.nets],
         'best': None if solver.best_nets is None else [fp_net(n) for n in solver.best_nets],
         'opt': fp_opt(solver.optimizer),
+        'modes': modes(solver.nets), 'best_modes': modes(solver.best_nets),
         'hist': {k: list(v) for k, v in solver.metrics_history.items()},
         'lowest': solver.lowest_loss,
         'loss_fn': solver.loss_fn, 'diff_eqs': solver.diff_eqs,
@@ -352,8 +362,12 @@ def diff_snapshots(before, after):
                                 f'condition {ci}: attribute {k!r} was a function and is now the string {a[k][:50]!r}'))
                 else:
                     out.append(('conditions-dict-mutated/other', f'condition {ci}: attribute {k!r} changed from {b[k]!r} to {a[k]!r}'))
+    if before['modes'] != after['modes'] or before['best_modes'] != after['best_modes']:
+        which = 'nets' if before['modes'] != after['modes'] else 'best_nets'
+        out.append(('module-training-mode-changed', f'the training flag of modules of solver.{which} changed (train <-> eval): '
+                    f'mode-dependent layers (Dropout, BatchNorm) now evaluate differently'))
     if before['nets'] != after['nets']:
-        out.append(('nets-changed', 'the network parameters changed'))
+        out.append(('nets-changed', 'the network parameters / buffers / modes changed'))
     if before['best'] != after['best']:
         out.append(('best-changed', 'best_nets changed'))
     if before['opt'] != after['opt']:
@@ -495,6 +509,11 @@ def run_scenario(ck, torch, spec, workdir, label):
             for suffix, desc in diff_snapshots(before, after):
                 ck.fail(f'save/{suffix}', f'save() ({"succeeded" if ok else "raised " + exc}) altered the solver: {desc}',
                         dict(inp, failing_op=oi))
+            now = solutions(torch, solver, spec)
+            for name in ('latest', 'best'):
+                if now[name] != ref[name] and not (sourced and isinstance(now[name], tuple)):
+                    ck.fail(f'save/{name}-solution-changes', f'the {name} solution of the SAME solver evaluates differently after save() ({how}) '
+                            f'under the same torch seed: {str(now[name])[:70]} vs {str(ref[name])[:70]}', dict(inp, failing_op=oi), ref[name], now[name])
             if ok and what == 'saveload':
                 try:
                     with contextlib.redirect_stdout(quiet):
